@@ -162,7 +162,7 @@ OPS = {
 
 MUTATIONS = {
     "fa": ["add_final_all", "add_transition_new", "remove_finals", "add_start_new", "add_eps_final_to_start",
-           "remove_eps_all", "add_eps_final_to_start"],
+           "remove_eps_all", "extend_eps", "cut_eps_second"],
     "pda": ["add_transition_new", "add_final_new"],
     "fst": ["add_transition_new", "add_final_all"],
     "dict": ["clear"],
@@ -194,6 +194,20 @@ def mutate(kind, obj, how):
                         obj.add_transition(f, "epsilon", s0)
                     except Exception:      # noqa  (classes without epsilon moves refuse)
                         return
+        elif how == "extend_eps":
+            # an epsilon edge LEAVING a state that is itself entered by an epsilon edge (closures of the predecessors
+            # change without their own edges being touched)
+            from pyformlang.finite_automaton import Epsilon
+            for (p_, a_, q_) in [t for t in obj if isinstance(t[1], Epsilon)]:
+                for f in list(obj.final_states):
+                    obj.add_transition(q_, "epsilon", f)
+        elif how == "cut_eps_second":
+            from pyformlang.finite_automaton import Epsilon
+            eps = [t for t in obj if isinstance(t[1], Epsilon)]
+            entered = {t[2] for t in eps}
+            for (p_, a_, q_) in eps:
+                if p_ in entered:
+                    obj.remove_transition(p_, a_, q_)
         elif how == "remove_eps_all":
             from pyformlang.finite_automaton import Epsilon
             for (p_, a_, q_) in [t for t in obj if isinstance(t[1], Epsilon)]:
@@ -358,8 +372,18 @@ def base_pool(rng):
     e2["n"] += 1
     e2.pop("edits", None)
     add("fa", e2)                                   # 10: empty language (final state unreachable)
+    e3 = gfa.random_case(rng, max_states=4, max_syms=2, kinds=("enfa",), vcs=["int", "str"], token=True)
+    e3.pop("edits", None)
+    e3.pop("eps_only", None)
+    n3 = max(e3["n"], 3)
+    e3["n"] = n3
+    e3["trans"] = [t for t in e3["trans"] if t[1] != -1][:4] + [[0, -1, 1], [1, -1, 2]] + \
+        ([[2, -1, 0]] if rng.random() < 0.3 else [])
+    e3["start"] = [0]
+    e3["final"] = [rng.randrange(n3)]
     from vf.props import c18
     add("fcfg", [c18.agreement_fcfg, c18.nested_fcfg, c18.rand_fcfg, c18.epsilon_fcfg][rng.randrange(4)](rng))   # 11
+    add("fa", e3)                                   # 12: epsilon chain 0 -> 1 -> 2 from the start state
     return pool
 
 
@@ -532,7 +556,7 @@ def prior_ops(events, ev):
 
 def targeted(rng, n):
     """scripts aimed at each cache in the anchors; pool indices: 0,1 fa  2,3 regex  4,5 cfg  6 pda  7 fst  8 ig
-    9,10 empty-language fa  11 feature grammar; "Rk" = the k-th object returned during the history"""
+    9,10 empty-language fa  11 feature grammar  12 epsilon-chain fa; "Rk" = the k-th object returned during the history"""
     out = []
     analyses = ["get_generating_symbols", "get_nullable_symbols", "generate_epsilon", "is_empty", "contains",
                 "to_normal_form", "get_words", "is_finite"]
@@ -595,6 +619,16 @@ def targeted(rng, n):
                     {"target": 0, "mutate": "remove_eps_all"}, {"target": 0, "op": "accepts", "arg": 3},
                     {"target": 0, "op": "accepts", "arg": 1}, {"target": 0, "op": "remove_epsilon_transitions", "arg": 0},
                     {"target": 0, "op": "get_accepted_words", "arg": 0}])
+        # epsilon chain: the closure of the start state changes through edits of edges further down the chain
+        out.append([{"target": 12, "op": "accepts", "arg": rng.randrange(11)}, {"target": 12, "op": "accepts", "arg": 1},
+                    {"target": 12, "op": "to_deterministic", "arg": 0}, {"target": 12, "mutate": "extend_eps"},
+                    {"target": 12, "op": "accepts", "arg": 0}, {"target": 12, "op": "accepts", "arg": 1},
+                    {"target": 12, "op": "accepts", "arg": rng.randrange(11)}, {"target": 12, "op": "is_empty", "arg": 0},
+                    {"target": 12, "op": "remove_epsilon_transitions", "arg": 0},
+                    {"target": 12, "mutate": "cut_eps_second"}, {"target": 12, "op": "accepts", "arg": 0},
+                    {"target": 12, "op": "accepts", "arg": 1}, {"target": 12, "op": "accepts", "arg": rng.randrange(11)},
+                    {"target": 12, "op": "to_deterministic", "arg": 0}, {"target": 12, "op": "minimize", "arg": 0},
+                    {"target": 12, "op": "get_accepted_words", "arg": 0}])
         # indexed grammar: repeated emptiness, after remove_useless_rules
         out.append([{"target": 8, "op": "is_empty", "arg": 0}, {"target": 8, "op": "is_empty", "arg": 0},
                     {"target": 8, "op": "remove_useless_rules", "arg": 0}, {"target": 8, "op": "is_empty", "arg": 0},
